@@ -578,7 +578,11 @@ func (op *ShellOperator) taskHandleHookRun(t task.Task) queue.TaskResult {
 			}
 		}
 		if shouldCombine {
-			combineResult := op.combineBindingContextForHook(op.TaskQueues, op.TaskQueues.GetByName(t.GetQueueName()), t, nil)
+			combineResult := op.combineBindingContextForHook(op.TaskQueues, op.TaskQueues.GetByName(t.GetQueueName()), t, func(tsk task.Task) bool {
+				tskMeta := task_metadata.HookMetadataAccessor(tsk)
+				// Do not combine Synchronization that should not run the hook ("executeHookOnSynchronization: false").
+				return tskMeta.IsSynchronization() && !tskMeta.ExecuteOnSynchronization
+			})
 			if combineResult != nil {
 				hookMeta.BindingContext = combineResult.BindingContexts
 				// Extra monitor IDs can be returned if several Synchronization for Group are combined.
